@@ -2,7 +2,7 @@
    Statements only; proofs in proofs/RestartP.v. *)
 From Coq Require Import List Bool Arith Lia.
 Import ListNotations.
-From Inf Require Import model.RngM model.RepexM proofs.RepexP proofs.RestartP.
+From Inf Require Import model.RngM model.RepexM proofs.RepexP proofs.RestartP proofs.RestartInstP.
 Open Scope nat_scope.
 
 (* For ANY deterministic step function, persisted image and recovery such that recovering
@@ -46,6 +46,42 @@ Theorem C06_reissue_exact : forall s cols paths pin s' jb,
     nth_error paths k = Some (nth c (trajs s') 0) /\ is_locked s' c = true.
 Proof. exact reissue_exact. Qed.
 Print Assumptions C06_reissue_exact.
+
+(* ------------------------------------------------------------------ the generic theorem instantiated
+   with the model of the program (proofs/RestartInstP.v).  State = bookkeeping state (RepexM) +
+   scheduler generator (RngM) + path store (path number -> weight row: the files load_paths reads);
+   [persist] = what write_toml stores (no worker pins, as in the real file); [recover] = load_paths
+   (rows rebuilt from the store, everything idle) followed by the model's own pick_lock for every
+   recorded job, in order, and the repaired set_rgen; [Good]: the invariant, the store agrees with
+   the state, the generator derives from the seed.  [eqv]: equality up to worker pins and the spawn
+   counter (re-issued jobs get pins 0,1,2,... and fresh streams). *)
+Theorem C06_recover_persist : forall sd s,
+  Good sd s -> Good sd (recover (persist sd s)) /\ eqv (recover (persist sd s)) s.
+Proof. exact recover_persist. Qed.
+Print Assumptions C06_recover_persist.
+
+(* with nothing in flight (one worker: every write) the restart gives back the state exactly *)
+Theorem C06_recover_persist_idle : forall sd s,
+  Good sd s -> locked (core (mf s)) = [] -> recover (persist sd s) = s.
+Proof. exact recover_persist_idle. Qed.
+Print Assumptions C06_recover_persist_idle.
+
+(* every chain of stop/restart segments of the model ends in an equivalent state and emits exactly
+   the data rows of the straight run, for ANY policy (the random draws and MD outcomes as a function
+   of the state) that does not read pins or the spawn counter, gives a new job a free pin, and hands
+   back the stored old path on a rejected move *)
+Theorem C06_restart_chain_model : forall sd (policy : mstate -> op * nat),
+  (forall a b, Good sd a -> Good sd b -> eqv a b ->
+     erase_op (fst (policy a)) = erase_op (fst (policy b)) /\ snd (policy a) = snd (policy b)) ->
+  (forall s, Good sd s -> op_pin_fresh (core (mf s)) (fst (policy s))) ->
+  (forall s, Good sd s -> rej_rows_stored (core (mf s)) (mstore s) (fst (policy s))) ->
+  forall segs s, Good sd s ->
+  eqv (fst (run_chain mstate image (nat * qrow) (mstep policy) (persist sd) recover segs s))
+      (fst (run mstate (nat * qrow) (mstep policy) (fold_right Nat.add 0 segs) s)) /\
+  snd (run_chain mstate image (nat * qrow) (mstep policy) (persist sd) recover segs s) =
+  snd (run mstate (nat * qrow) (mstep policy) (fold_right Nat.add 0 segs) s).
+Proof. exact restart_chain_model. Qed.
+Print Assumptions C06_restart_chain_model.
 
 (* non-vacuity: a counter machine with a lossy but sufficient persisted image *)
 Example C06_example_chain :
